@@ -72,7 +72,7 @@ PROPS = {
         title="All ways of loading a time zone give the same zone",
         verus=["posix", ("posix", "_static", STATIC)],
         all_fns=True,
-        kani_quick=["c17_tzif", "c18_designation"], kani_thorough=[],
+        kani_quick=["c17_tzif", "c18_designation", "c18_static_quote"], kani_thorough=[],
         design_ref="DESIGN.md section 4, C18",
         level_text="Narrow claim: the two copies of the shared time-zone core (src/shared/** used by jiff and the generated crates/jiff-static/src/shared/** used by the static-zone macros) each satisfy the SAME functional contracts (result == spec(args)) for the calendar core and the POSIX rule evaluation, hence agree with each other on every input; a drift in either copy fails a named obligation. Database back-ends, proc-macro expansion and slim/fat zic output are not covered (DESIGN.md section 4, C18).",
     ),
@@ -80,7 +80,7 @@ PROPS = {
         title="Fallible operations return errors: no panics, no out-of-range results",
         verus=["posix", "tzif", "rounders", "sdur", "zoned", "span", "civiladd", "civildiff", "ambig", "isoweek", "spanround", "zonedround", "tsarith", "offround", "dtdiff", "zoneddiff", "tzdispatch", "civilarith", "civilwith"],
         all_fns=True,
-        kani_quick=["c01_civil", "c02_wrappers"],
+        kani_quick=["c01_civil", "c02_wrappers", "c10_model"],
         kani_thorough=["c10_model"],
         design_ref="DESIGN.md section 4, C05",
         level_text="Per-function claim over an explicit list (evidence.coverage.functions_under_contract): every extracted function is verified by Verus to be free of panics (assert!/unreachable!/unwrap/expect/indexing), arithmetic overflow and failed debug assertions for ALL inputs satisfying its stated type invariants, and its Ok results satisfy the range stated in its postcondition; the ranged-integer wrappers in the Kani groups are checked bit-precisely for panics and for Ok values inside the type's range. Entry points not on the list are not covered.",
@@ -109,9 +109,9 @@ PROPS = {
     "C09": dict(
         title="Datetimes print to RFC 3339/9557 text that parses back to the same value",
         verus=[],
-        kani_quick=["c09_printer", "c17_offset"], kani_thorough=[],
+        kani_quick=["c09_printer", "c17_offset", "c09_datetime", "c09_offset_optional"], kani_thorough=[],
         design_ref="DESIGN.md section 4, C09",
-        level_text="Narrow claim: the offset part of the Temporal printer on the real code, for every offset in -93599..=93599 s: print_offset_rounded emits sign HH:MM with MM <= 59 denoting |offset| rounded to the nearest minute, print_offset_full_precision emits the exact offset (loop-free up to the 2-digit writers, unwinding complete: full-domain proofs). The print->parse identity of whole datetimes, IANA-name lookup and serde are NOT decided (byte-string printers/parsers exceed CBMC at useful buffer sizes and are outside Verus' subset; DESIGN.md section 4, C09).",
+        level_text="Civil part + offsets, on the real printer and parser (Kani, full domain, no bounded stand-in): for EVERY Date / Time / DateTime the default printed form is the ISO 8601 text an independent digit-by-digit reader decodes to the same fields (years < 0 as -YYYYYY), the real date/time parsers equal that reader on every byte string of the relevant shapes, and parse(print(x)) == x (thorough-tier round-trip harnesses; quick tier: printers + time parser); offsets: print_offset_rounded / full_precision for every offset, and (thorough) the offset parser returns exactly the printed offset. NOT decided: Timestamp/Zoned printing (instant -> civil conversion is C02/C13; zone annotation, IANA-name lookup), non-default printer options, serde. Known finding F24: years < 0 print as -YYYYYY, which is not RFC 3339.",
     ),
     "C11": dict(
         title="Span balancing and rounding are exact relative to a reference",
@@ -130,7 +130,7 @@ PROPS = {
     "C17": dict(
         title="Parsers are total: arbitrary input gives Ok or Err, and Ok values are sane",
         verus=["tzif", "posix"],
-        kani_quick=["c17_tzif", "c17_posix", "c17_offset", "c18_designation"], kani_thorough=[],
+        kani_quick=["c17_tzif", "c17_posix", "c17_offset", "c18_designation", "c09_datetime", "c09_offset_optional"], kani_thorough=[],
         design_ref="DESIGN.md section 4, C17",
         level_text="TZif part only. Proof (loop-free, full domain): the 44-byte TZif header parser and all block-length computations never panic and return exact products or Err on overflow. Bounded stand-ins (bounds stated in evidence.coverage.bounded, never counted as proved): the transition-type and local-time-type block parsers on 2 records. 'A time zone built from accepted data answers every lookup without panicking' is the Verus obligations of the tzif and posix units (tables of any length, every rule) under the well-formedness that the block parsers establish (type indices < number of types, offsets in range). NOT decided: Temporal/friendly/RFC 2822/strptime/offset/RFC 9557/POSIX-TZ text parsers, 'work proportional to input'.",
     ),
